@@ -383,8 +383,8 @@ def real_fs(ck, work, quick):
                      {"case": "gaps2", "got": res})
     # K names taken (tmp1..tmpK, files and directories alternating) for K around every power of two and ten: the run
     # creates tmp(K+1) and touches nothing that was there (probe caps, give-up counters)
-    from boundaries import around
-    for K in ([9, 10, 99, 100, 101, 255, 256, 999, 1000, 1001, 1024] if quick else around(10001, lo=7)):
+    from boundaries import around, with_mined
+    for K in (with_mined([9, 10, 99, 100, 101, 255, 256, 999, 1000, 1001, 1024], 20000, lo=2) if quick else around(10001, lo=7)):
         dk = os.path.join(work, f"taken{K}")
         os.mkdir(dk)
         for i in range(1, K + 1):
